@@ -136,7 +136,9 @@ def _run_unit_once(name, rlimit=None, extra_args=(), expanded_src=None, use_cach
             # output goes to files: a pipe that nobody drains while polling blocks verus once it is full
             base = os.path.join(tmpd, "%s.%s.%d" % (name, sd, os.getpid()))
             fo, fe = open(base + ".out", "w+"), open(base + ".err", "w+")
-            pr0 = subprocess.Popen(a2, stdout=fo, stderr=fe, text=True, start_new_session=True, cwd=os.path.join(BUILD, "units"))
+            # large unrolled bodies (BLAKE2s) overflow the default thread stack of rust_verify
+            env2 = dict(os.environ, RUST_MIN_STACK=os.environ.get("RUST_MIN_STACK", "67108864"))
+            pr0 = subprocess.Popen(a2, stdout=fo, stderr=fe, text=True, start_new_session=True, cwd=os.path.join(BUILD, "units"), env=env2)
             _LIVE_PGIDS.add(pr0.pid)
             procs.append((sd, pr0, fo, fe, base))
         deadline = t0 + (timeout or VERUS_TIMEOUT)
